@@ -449,6 +449,14 @@ class XsiType(Family):
  <xs:element name="root7">
   <xs:complexType><xs:sequence><xs:element name="num" type="xs:decimal" maxOccurs="unbounded"/></xs:sequence></xs:complexType>
  </xs:element>
+ <xs:complexType name="Num"><xs:complexContent><xs:extension base="t:Base"><xs:attribute name="code" type="xs:int"/>
+  </xs:extension></xs:complexContent></xs:complexType>
+ <xs:complexType name="Lab"><xs:complexContent><xs:extension base="t:Base"><xs:attribute name="code" type="xs:string"/>
+  </xs:extension></xs:complexContent></xs:complexType>
+ <xs:element name="root8">
+  <xs:complexType><xs:sequence><xs:element ref="t:x" maxOccurs="unbounded"/></xs:sequence></xs:complexType>
+  <xs:unique name="u8"><xs:selector xpath="t:x"/><xs:field xpath="@code"/></xs:unique>
+ </xs:element>
 </xs:schema>'''}
 
     def _doc(self, root, xs, child='x'):
@@ -594,6 +602,18 @@ class XsiType(Family):
             Doc('xt-r7-p-rebound', _decl() + f'{r7}><t:num xmlns:p="urn:xt" xsi:type="p:integer">1.5</t:num>'
                 f'<t:num xmlns:p="{XSD_NS}" xsi:type="p:integer">12</t:num><t:num xmlns:p="urn:xt" xsi:type="p:integer">2.5</t:num>'
                 '</t:root7>\n'),
+        ]
+        # one identity field typed differently by two derived types: '1' and '01' are one value as integers, two as strings
+        r8 = '<t:root8 xmlns:t="urn:xt" xmlns:xsi="http://www.w3.org/2001/XMLSchema-instance">'
+        out += [
+            Doc('xt-r8-num-dup', _decl() + f'{r8}<t:x xsi:type="t:Num" code="1"/><t:x xsi:type="t:Num" code="01"/></t:root8>\n',
+                'fault:dup-unique'),
+            Doc('xt-r8-lab-ok', _decl() + f'{r8}<t:x xsi:type="t:Lab" code="1"/><t:x xsi:type="t:Lab" code="01"/>'
+                '<t:x xsi:type="t:Lab" code="001"/></t:root8>\n'),
+            Doc('xt-r8-num-ok', _decl() + f'{r8}<t:x xsi:type="t:Num" code="1"/><t:x xsi:type="t:Num" code="2"/>'
+                '<t:x xsi:type="t:Num" code="03"/></t:root8>\n'),
+            Doc('xt-r8-mixed', _decl() + f'{r8}<t:x xsi:type="t:Num" code="1"/><t:x xsi:type="t:Lab" code="01"/>'
+                '<t:x xsi:type="t:Num" code="2"/><t:x xsi:type="t:Lab" code="02"/></t:root8>\n'),
         ]
         for d in out:
             d.prefix_dep = True   # xsi:type values are QNames
